@@ -165,10 +165,11 @@ func (s *TableAggregator) Trim(predicate func(col, row string, val int64) bool) 
 
 		removeAllInCol := true
 		for rowName, row := range s.rows {
-			if predicate(colName, rowName, row.cols[colName]) {
+			val, hasCell := row.cols[colName]
+			if predicate(colName, rowName, val) {
 				delete(row.cols, colName)
 				trimmed++
-			} else {
+			} else if hasCell {
 				removeAllInCol = false
 			}
 
